@@ -270,7 +270,7 @@ func (incr *incremental[Obj]) commitStatus() (numErrors int) {
 			// user would have replaced it with Pending. Without this the result of a retry
 			// would be dropped, the retry forgotten and the object left in Error for good.
 			currentStatus := incr.config.GetObjectStatus(current)
-			if (currentStatus.Kind == StatusKindPending && currentStatus.ID == result.id) ||
+			if (currentStatus.IsPendingOrRefreshing() && currentStatus.ID == result.id) ||
 				currentStatus.Kind == StatusKindError {
 				current = incr.config.CloneObject(current)
 				current = incr.config.SetObjectStatus(current, status)
